@@ -183,11 +183,14 @@ class Mirror:
         return ok
 
     def txn_block(self, name, nstmt, commit):
-        """an explicit transaction of nstmt statements on table `name`, committed or aborted; mirrored only if committed"""
-        types, names, kinds = self.tables[name]
+        """an explicit transaction of nstmt statements on table `name` (or, given a list, each statement on one of these tables:
+        one commit then carries changes, deletes in particular, of several tables), committed or aborted; mirrored only if committed"""
+        pool = [name] if isinstance(name, str) else list(name)
         self.db.cmd("begin w")
         refops = []
         for _ in range(nstmt):
+            name = self.rng.choice(pool)
+            types, names, kinds = self.tables[name]
             r = self.rng.random()
             if r < 0.4:
                 vals = self.rnd_vals(name)
